@@ -18,9 +18,8 @@
 
    Payload indices: every helper reads payload bytes through GroupMsg.pb
    (0 beyond the end).  Go indexes Payload[0..4] only behind len > 5 (video) /
-   len > 2 (audio) here, so the two agree except for an enhanced-RTMP
-   CodedFrames message shorter than 8 bytes (Go panics in Cts / slices
-   [8:]; crash property C05).  MsgLen is taken to be len(Payload)
+   len > 2 (audio) here; an enhanced-RTMP CodedFrames message too short for its
+   8 header bytes is dropped ([enhanced_too_short], lal 01a3e51).  MsgLen is taken to be len(Payload)
    (logic.Group logs an error otherwise).  No proofs in this file. *)
 From Lal Require Import Common.LBytes Common.Res Group.GroupMsg Codec.CodecBits Codec.CodecAac
   Codec.CodecAvcSeqHeader Codec.CodecHevcSeqHeader Codec.CodecNalFraming Rtp.RtpPacker
@@ -41,7 +40,9 @@ Definition hevc_aud_nalu : bytes := [0; 0; 0; 1; 70; 1; 16].    (* hevc.AudNalu 
 (* ---- base.RtmpMsg helpers not in GroupMsg ---- *)
 (* VideoCodecId *)
 Definition video_codec_id (m : rmsg) : N :=
-  if is_ext_header m then (if hvc1_tag m then codec_id_hevc else codec_id_avc)
+  if lenN (rm_payload m) <? 1 then 0
+  else if is_ext_header m then
+    (if lenN (rm_payload m) <? 5 then 0 else if hvc1_tag m then codec_id_hevc else codec_id_avc)
   else pb m 0 mod 16.
 
 Definition ex_packet_type (m : rmsg) : N := pb m 0 mod 16.
@@ -57,6 +58,11 @@ Definition enhanced_nalu_index (m : rmsg) : nat :=
   else 0%nat.
 
 Definition be24_at (m : rmsg) (i : nat) : N := pb m i * 65536 + pb m (i + 1) * 256 + pb m (i + 2).
+
+(* an enhanced-RTMP CodedFrames message too short for its header (lal 01a3e51 / 40cc430: dropped) *)
+Definition enhanced_too_short (m : rmsg) : bool :=
+  (video_codec_id m =? codec_id_hevc) && is_enhanced_hevc_nalu m
+  && (lenN (rm_payload m) <=? N.of_nat (enhanced_nalu_index m)).
 
 (* Cts of a video message *)
 Definition video_cts (m : rmsg) : N :=
@@ -243,6 +249,7 @@ Section Observer.
              (let* (v, sp, q) := hevc_parse_enhanced_seq_header (rm_payload m) in
               Ok (hsc4 ++ v ++ hsc4 ++ sp ++ hsc4 ++ q))), o, [])
         else (set_spspps s (res_to_opt (hevc_seq_header2annexb (rm_payload m))), o, [])
+      else if enhanced_too_short m then (s, o, [])
       else
         let c := if cid =? codec_id_hevc then Hevc else Avc in
         let body := if (cid =? codec_id_hevc) && is_enhanced_hevc_nalu m
